@@ -642,8 +642,9 @@ def explicit_validate_outcome(kind, d):
     return ("ok",) if r[0] == "ok" else ("err", r[1], r[2])
 
 
-def check_defs(ctx, batch):
-    """batch: list of (kind, definition, corruption names, documented code or None, tag)."""
+def check_defs(ctx, batch, expect_valid=True):
+    """batch: list of (kind, definition, corruption names, documented code or None, tag); with no corruption name the
+    definition is expected to be valid unless expect_valid is False (exhaustive families)."""
     items = [(19, OPS[kind], enc.tree(enc_raw(kind, d))) for kind, d, _, _, _ in batch]
     answers = ctx.driver.batch(items)
     for (kind, d, names, doc, tag), ans, item in zip(batch, answers, items):
@@ -665,7 +666,11 @@ def check_defs(ctx, batch):
             problems.append(f"rule {names[0]} is documented to raise code {doc}, constructor raised {got[2]} ({got[1]})")
         if doc is not None and m != ("err", doc):
             problems.append(f"model gives {m} for rule {names[0]}, documented code {doc}")
-        if kind in ("dfa", "nfa") and not names:
+        if kind in ("dfa", "nfa") and not names and not expect_valid:
+            # valid_dfa / valid_nfa of Spec/FA.v = duplicate-free keys (always, from Python dicts) and validate accepts
+            if (ans[1] == 1) != (m[0] == "ok") or ans[2] != 1:
+                problems.append(f"valid_{kind} = {ans[1]}, keys_ok = {ans[2]} but the model's validate gives {m}")
+        if kind in ("dfa", "nfa") and not names and expect_valid:
             if ans[1] != 1 or ans[2] != 1:
                 problems.append(f"valid_{kind}/keys_ok of the model = {ans[1:]} on an accepted definition")
         if kind == "dpda" and d["acceptance_mode"] in c02.MODES and ans[1] != ans[0]:
@@ -677,7 +682,7 @@ def check_defs(ctx, batch):
                          "outcome": got[2] if got[0] == "err" else "accepted"} if names and ctx.rng.random() < 0.02 else None)
         if problems:
             confirmed = any(p.startswith("corrupted definition") or p.startswith("rule ") for p in problems) or \
-                (not names and got[0] == "err")
+                (not names and expect_valid and got[0] == "err")
             ctx.violation(f"{kind.upper()} validation: " + "; ".join(problems),
                           {"kind": "ctor", "class": kind, "def": repr(d), "corruptions": names, "documented": doc,
                            "problems": problems, "model": repr(ans), "tag": tag}, confirmed=confirmed)
@@ -721,7 +726,7 @@ def stream_a(ctx):
     batch = []
     for kind, d, names, exc in fixed_cases():
         batch.append((kind, d, names, DOC[exc] if exc else None, "fixture"))
-    n = ctx.n(28, 280)
+    n = ctx.n(500, 4000)
     for kind in CLASSES:
         table = corruptions(kind)
         for i in range(n):
@@ -881,10 +886,12 @@ def reads(b, name, obj, words, budget=None):
                 obs.append("!")
                 problems.append(f"read_input({w!r}) raised {r[2]}")
         else:
-            items, o = tmlib.consume(obj.read_input_stepwise(w), budget)
+            # nondeterministic readers yield sets of configurations: stop when a level gets large
+            items, o = tmlib.consume(obj.read_input_stepwise(w), budget,
+                                     stop=lambda y: isinstance(y, (set, frozenset)) and len(y) > 150)
             if o[0] == "ok":
                 obs.append("1")
-            elif o[0] == "limit":
+            elif o[0] in ("limit", "stop"):
                 obs.append("?")
             elif o[2] == "RejectionException":
                 obs.append("0")
@@ -982,15 +989,15 @@ def battery_case(b, rng, i):
     reads(b, "read:dtm", DTM(**tmlib.dtm_def(md)), tw, budget=60)
     reads(b, "read:dtm_as_ntm", NTM(**tmlib.ntm_def(md)), tw, budget=60)
     md2 = tmlib.rand_table(rng, k=1, nondet=True)
-    reads(b, "read:ntm", NTM(**tmlib.ntm_def(md2)), tmlib.rand_words(rng, md2, 4, maxlen=4), budget=25)
+    reads(b, "read:ntm", NTM(**tmlib.ntm_def(md2)), tmlib.rand_words(rng, md2, 4, maxlen=4), budget=20)
     md3 = tmlib.rand_table(rng, k=rng.choice([1, 2, 2, 3]), nondet=rng.random() < 0.5)
     mw = tmlib.rand_words(rng, md3, 4, maxlen=3)
     mn = MNTM(**tmlib.mntm_def(md3))
     reads(b, "read:mntm", mn, mw, budget=60)
     obs = []
     for w in mw:
-        items, o = tmlib.consume(mn.read_input_as_ntm(w), 60)
-        obs.append("1" if o[0] == "ok" else "?" if o[0] == "limit" else "0" if o[2] == "RejectionException" else "!" + o[2])
+        items, o = tmlib.consume(mn.read_input_as_ntm(w), 30, stop=lambda y: len(y) > 150)
+        obs.append("1" if o[0] == "ok" else "?" if o[0] in ("limit", "stop") else "0" if o[2] == "RejectionException" else "!" + o[2])
     bad = sorted({x[1:] for x in obs if x.startswith("!")})
     if not bad:
         b.emit("read_input_as_ntm", ["reads", "".join(obs)])
@@ -1022,13 +1029,21 @@ def battery_case(b, rng, i):
         b.emit(f"{kind}:{name}", ["kind", r[2] if r[0] == "err" else "accepted"], problems=problems)
 
 
+def _alarm(signum, frame):
+    raise TimeoutError("battery case exceeded its wall-clock allowance")
+
+
 def worker(seed, n):
+    import signal
     out = sys.stdout
     b = Battery(out)
+    signal.signal(signal.SIGALRM, _alarm)
     for i in range(n):
         rng = random.Random(seed * 7919 + i)
         try:
+            signal.alarm(120)        # a run-away case must not hang the check
             battery_case(b, rng, i)
+            signal.alarm(0)
         except BaseException as e:  # noqa: BLE001
             if isinstance(e, (KeyboardInterrupt, SystemExit, MemoryError)):
                 raise
@@ -1043,18 +1058,27 @@ FLAG_SETS = ("10", "11", "00", "01")   # should_validate_automata, allow_mutable
 
 
 def spawn_batteries(ctx, n):
+    import tempfile
     procs = {}
     for fl in FLAG_SETS:
         env = dict(os.environ, C19_FLAGS=fl, PYTHONHASHSEED="0")
-        procs[fl] = subprocess.Popen([sys.executable, "-B", os.path.abspath(__file__), "worker", str(ctx.seed), str(n)],
-                                     stdout=subprocess.PIPE, stderr=subprocess.PIPE, text=True, env=env)
+        out = tempfile.TemporaryFile(mode="w+")      # a file, not a pipe: the four processes must not block on a full pipe
+        err = tempfile.TemporaryFile(mode="w+")
+        p = subprocess.Popen([sys.executable, "-B", os.path.abspath(__file__), "worker", str(ctx.seed), str(n)],
+                             stdout=out, stderr=err, text=True, env=env)
+        procs[fl] = (p, out, err)
     return procs
 
 
 def collect_batteries(ctx, procs, n):
     outs = {}
-    for fl, p in procs.items():
-        so, se = p.communicate(timeout=3000)
+    for fl, (p, out, err) in procs.items():
+        p.wait(timeout=3000)
+        out.seek(0)
+        err.seek(0)
+        so, se = out.read(), err.read()
+        out.close()
+        err.close()
         if p.returncode != 0:
             raise RuntimeError(f"battery process for flags {fl} failed: {se[-800:]}")
         outs[fl] = [json.loads(l) for l in so.splitlines() if l.strip()]
@@ -1078,8 +1102,10 @@ def collect_batteries(ctx, procs, n):
                 tree_items.append((19, t[0], t[1]))
                 tree_owner.append((fl, r["id"]))
     # (c) through the model: every returned automaton is valid for the model's validate / valid_dfa / valid_nfa
-    answers = ctx.driver.batch(tree_items)
-    for (fl, rid), it, ans in zip(tree_owner, tree_items, answers):
+    uniq = sorted(set(tree_items))          # the four processes mostly return the same automata
+    memo = dict(zip(uniq, ctx.driver.batch(uniq)))
+    for (fl, rid), it in zip(tree_owner, tree_items):
+        ans = memo[it]
         ok = ans != [0, enc.BAD_INPUT] and ans[0][0] == 1 and (it[1] == 3 or (ans[1] == 1 and ans[2] == 1))
         ctx.tally("result_revalidated_by_model")
         if not ok:
@@ -1121,13 +1147,43 @@ def collect_batteries(ctx, procs, n):
 
 
 # ================================================================ entry points
+def exhaustive(ctx):
+    """Every DFA / NFA definition of a small finite family (valid and malformed ones alike): constructor vs model."""
+    batch = []
+    drows = [None, {}, {"a": 0}, {"a": 1}, {"a": 9}, {"b": 0}, {"a": 0, "b": 0}, {"b": 0, "a": 9}]
+    nrows = [None, {}, {"a": {0}}, {"a": {1}}, {"a": {0, 1}}, {"a": {9}}, {"": {1}}, {"b": {0}}, {"a": set()}, {"b": {0}, "a": {9}}]
+    finals = [set(), {0}, {1}, {0, 1}, {9}, {0, 9}]
+    nd = nn = 0
+    for r0, r1 in itertools.product(drows, repeat=2):
+        tr = {q: dict(r) for q, r in ((0, r0), (1, r1)) if r is not None}
+        for init, fin, partial in itertools.product([0, 1, 9], finals, [False, True]):
+            batch.append(("dfa", dict(states={0, 1}, input_symbols={"a"}, transitions=tr, initial_state=init,
+                                      final_states=set(fin), allow_partial=partial), [], None, "exhaustive"))
+            nd += 1
+    for r0, r1 in itertools.product(nrows, repeat=2):
+        tr = {q: {a: set(t) for a, t in r.items()} for q, r in ((0, r0), (1, r1)) if r is not None}
+        for init, fin in itertools.product([0, 1, 9], finals):
+            batch.append(("nfa", dict(states={0, 1}, input_symbols={"a"}, transitions=tr, initial_state=init,
+                                      final_states=set(fin)), [], None, "exhaustive"))
+            nn += 1
+    check_defs(ctx, batch, expect_valid=False)
+    ctx.exhaustive = True
+    ctx.exhaustive_scope = (f"constructor outcome = model validate on all {nd} DFA definitions over states {{0,1}}, alphabet {{a}} with each "
+                            "row absent or one of {}, {a:0}, {a:1}, {a:9}, {b:0}, {a:0,b:0}, {b:0,a:9}, initial state in {0,1,9}, final "
+                            f"states in {{}},{{0}},{{1}},{{0,1}},{{9}},{{0,9}}, complete and partial; and on all {nn} NFA definitions with each row "
+                            "absent or one of {}, {a:{0}}, {a:{1}}, {a:{0,1}}, {a:{9}}, {'':{1}}, {b:{0}}, {a:{}}, {b:{0},a:{9}} and the same "
+                            "initial / final choices (the random streams and the battery are not exhaustive)")
+
+
 def run(ctx):
     ctx.rule = RULE
-    n = ctx.n(36, 400)
+    n = ctx.n(600, 6000)
     procs = spawn_batteries(ctx, n)
     try:
         stray_row(ctx)
         stream_a(ctx)
+        if ctx.tier == "thorough":
+            exhaustive(ctx)
     finally:
         collect_batteries(ctx, procs, n)
 
